@@ -136,7 +136,8 @@ def parse_concrete(lines, **settings):
             pass
 
 
-def project(files, correlate=True, post=None, post_modules=(), file_order="sorted", sym_sets=(), more_patches=None, physical=(), **settings):
+def project(files, correlate=True, post=None, post_modules=(), file_order="sorted", sym_sets=(), more_patches=None, physical=(), reader_log=None,
+            **settings):
     """Run the real Project (all files parsed by the real parser, reader stubbed) and correlate().
     files: {basename: [logical lines (str or CV)]}.  `post(project)` runs inside the same patched context
     (same fresh NameSelector, same patches; `post_modules` are patched in addition) and its result is returned."""
@@ -156,6 +157,9 @@ def project(files, correlate=True, post=None, post_modules=(), file_order="sorte
 
         def make_reader(path, docmark="!", predocmark="", docmark_alt="", predocmark_alt="", *a, **k):
             base = os.path.basename(path)
+            if reader_log is not None:
+                # (file, fixed-form flag, whether a pre-processor command was passed) as FortranSourceFile hands them to the reader
+                reader_log.append((base, a[0] if a else k.get("fixed"), bool(a[2]) if len(a) > 2 else bool(k.get("preprocessor"))))
             if base in physical:
                 return readerh.mk_reader([l + "\n" for l in files[base]], docmark=docmark, predocmark=predocmark,
                                          docmark_alt=docmark_alt, predocmark_alt=predocmark_alt)
